@@ -411,6 +411,108 @@ fn program_to_bytecode(p: &Program, entry: Option<usize>) -> Bytecode {
     p.to_bytecode(entry)
 }
 
+
+// ---------------------------------------------------------------------------------------------
+// independent (Rust-side) abstract walk used to confirm static counterexamples of C07/C16:
+// follows the given branch decisions through the real `Function.instructions` and recomputes the
+// operand-stack height above the frame entry and the number of locals from the real tables.
+
+fn walk(bc: &Bytecode, fid: usize, decisions: &[bool]) -> J {
+    use quiver_core::bytecode::Instruction as I;
+    let Some(f) = bc.functions.get(fid) else {
+        return json!({"ok": false, "error": "no such function"});
+    };
+    let n = f.instructions.len() as i64;
+    let mut h: i64 = 1;
+    let mut l: i64 = f.captures as i64;
+    let mut pc: i64 = 0;
+    let mut k = 0usize;
+    let mut steps = Vec::new();
+    let mut problems = Vec::new();
+    let mut guard = 0;
+    while pc >= 0 && pc < n && guard <= n + 1 {
+        guard += 1;
+        let ins = f.instructions[pc as usize];
+        steps.push(json!([pc, h, l]));
+        let mut next = pc + 1;
+        let (need, dh): (i64, i64) = match ins {
+            I::Constant(c) => {
+                if c >= bc.constants.len() { problems.push(json!([pc, "constant index out of range"])); }
+                (0, 1)
+            }
+            I::Pop => (1, -1),
+            I::Duplicate => (1, 1),
+            I::Pick(n) => (n as i64 + 1, 1),
+            I::Rotate(n) => (n as i64, 0),
+            I::Reset(i) => {
+                if (i as i64) > l { problems.push(json!([pc, "reset-beyond-locals"])); }
+                l = i as i64;
+                (0, 0)
+            }
+            I::Load(i) => {
+                if (i as i64) >= l { problems.push(json!([pc, "load-undefined-local"])); }
+                (0, 1)
+            }
+            I::Store => { l += 1; (1, -1) }
+            I::Tuple(t) => match bc.tuples.get(t) {
+                Some(info) => (info.fields.len() as i64, 1 - info.fields.len() as i64),
+                None => { problems.push(json!([pc, "tuple index out of range"])); (0, 1) }
+            },
+            I::Get(_) => (1, 0),
+            I::IsType(t) => {
+                if t >= bc.types.len() { problems.push(json!([pc, "type index out of range"])); }
+                (1, 0)
+            }
+            I::Jump(off) => { next = pc + off as i64 + 1; (0, 0) }
+            I::JumpIf(off) => {
+                let d = decisions.get(k).copied().unwrap_or(false);
+                k += 1;
+                if d { next = pc + off as i64 + 1; }
+                (1, -1)
+            }
+            I::Call => (2, -1),
+            I::TailCall(rec) => {
+                let exact = if rec { 1 } else { 2 };
+                if h < exact { problems.push(json!([pc, "stack-underflow"])); }
+                if h != exact { problems.push(json!([pc, "tailcall-leaves-stack-cells"])); }
+                next = -1;
+                (0, 0)
+            }
+            I::Function(fi) => match bc.functions.get(fi) {
+                Some(g) => (g.captures as i64, 1 - g.captures as i64),
+                None => { problems.push(json!([pc, "function index out of range"])); (0, 1) }
+            },
+            I::Builtin(b) => {
+                if b >= bc.builtins.len() { problems.push(json!([pc, "builtin index out of range"])); }
+                (0, 1)
+            }
+            I::Equal(c) => (c as i64, 1 - c as i64),
+            I::Not => (1, 0),
+            I::Spawn => (2, -1),
+            I::Send => (2, -1),
+            I::Self_ => (0, 1),
+            I::Select => (1, 0),
+            I::Process(_, fi) => {
+                if fi >= bc.functions.len() { problems.push(json!([pc, "process function index out of range"])); }
+                (0, 1)
+            }
+        };
+        if h < need { problems.push(json!([pc, "stack-underflow"])); }
+        h += dh;
+        if next != -1 && (next < 0 || next > n) {
+            problems.push(json!([pc, "jump-out-of-range"]));
+            next = -1;
+        }
+        if next == -1 { pc = -1; break; }
+        pc = next;
+    }
+    if pc == n {
+        steps.push(json!([pc, h, l]));
+        if h != 1 { problems.push(json!([pc, "exit-height-not-one"])); }
+    }
+    json!({"ok": true, "steps": steps, "problems": problems})
+}
+
 // ---------------------------------------------------------------------------------------------
 
 fn get_h(st: &State, req: &J) -> Result<usize, J> {
@@ -633,6 +735,16 @@ fn handle(st: &mut State, req: &J) -> J {
             let e = req.get("entry").and_then(|e| e.as_u64()).map(|e| e as usize);
             st.progs[h].bytecode.entry = e;
             json!({"ok": true})
+        }
+        "walk" => {
+            let h = match get_h(st, req) { Ok(h) => h, Err(e) => return e };
+            let fid = req.get("fid").and_then(|e| e.as_u64()).unwrap_or(0) as usize;
+            let decisions: Vec<bool> = req
+                .get("decisions")
+                .and_then(|d| d.as_array())
+                .map(|a| a.iter().map(|x| x.as_bool().unwrap_or(false)).collect())
+                .unwrap_or_default();
+            walk(&st.progs[h].bytecode, fid, &decisions)
         }
         "ping" => json!({"ok": true}),
         _ => json!({"ok": false, "error": format!("unknown op {op}")}),
